@@ -23,6 +23,15 @@ BASE = os.environ.get('SEED_BASE', 'HEAD')     # the /repo commit the stored pat
 PY = '/venv/bin/python'
 
 
+def snapshot_verif():
+    """the checks are run from a private copy of /verif/sa taken now, so that edits made while a long evaluation runs do not mix versions"""
+    snap = tempfile.mkdtemp(prefix='verifsnap_', dir='/tmp')
+    shutil.copytree(os.path.join(VERIF, 'sa'), os.path.join(snap, 'sa'), ignore=shutil.ignore_patterns('__pycache__'))
+    for f in ('check', 'known_findings.json', 'MANIFEST.json'):
+        shutil.copy(os.path.join(VERIF, f), os.path.join(snap, f))
+    return snap
+
+
 def sh(cmd, cwd=None, env=None, timeout=1800):
     r = subprocess.run(cmd, shell=True, cwd=cwd, env=env, capture_output=True, text=True, timeout=timeout)
     return r.returncode, r.stdout + r.stderr
@@ -33,6 +42,9 @@ def main():
     src, pid, name = a[:3]
     pids = a[3:] or [c['property_id'] for c in json.load(open(os.path.join(VERIF, 'MANIFEST.json')))['checks']]
     src = os.path.abspath(src)
+    global BASE
+    if os.path.exists(os.path.join(src, 'base.txt')) and 'SEED_BASE' not in os.environ:
+        BASE = open(os.path.join(src, 'base.txt')).read().strip()
     wt = tempfile.mkdtemp(prefix=f'benign_{name}_', dir='/tmp')
     os.rmdir(wt)
     meta = dict(name=name, property=pid)
@@ -46,6 +58,18 @@ def main():
         rc0, out0 = sh(f'{PY} {demo}', cwd=wt, env=env)
         meta['demo_pristine_exit'] = rc0
         rc, out = sh(f'git apply {os.path.join(src, "patch.diff")}', cwd=wt)
+        if rc == 0 and BASE != 'HEAD':
+            # the patch was written against an older /repo commit: bring the later fix commits of /repo on top of it
+            sh('git -c user.email=v@v -c user.name=v commit -qam seeded-change', cwd=wt)
+            later = sh(f'git -C /repo rev-list --reverse {BASE}..HEAD')[1].split()
+            meta['rebased_over'] = []
+            for c in later:
+                r2, o2 = sh(f'git -c user.email=v@v -c user.name=v cherry-pick {c}', cwd=wt)
+                if r2:
+                    sh('git cherry-pick --abort', cwd=wt)
+                    meta['rebase_conflict'] = c
+                    break
+                meta['rebased_over'].append(c[:7])
         meta['applies'] = rc == 0
         if rc:
             meta['apply_error'] = out[-400:]
@@ -58,10 +82,12 @@ def main():
         meta['demo_changed_exit'] = rc1
         meta['confirmed_benign_by_demo'] = rc0 == 0 and rc1 == 0 and meta['tests_pass']
 
+        snap = snapshot_verif()
+
         def one(p):
             outd = tempfile.mkdtemp(prefix='benout_', dir='/tmp')
             t0 = time.time()
-            r = subprocess.run([os.path.join(VERIF, 'check'), p, '--tier', os.environ.get('TIER', 'quick')], cwd=VERIF,
+            r = subprocess.run([os.path.join(snap, 'check'), p, '--tier', os.environ.get('TIER', 'quick')], cwd=snap,
                                env=dict(os.environ, VERIF_REPO=wt, VERIF_OUT=outd), capture_output=True, text=True)
             shutil.rmtree(outd, ignore_errors=True)
             lines = r.stdout.splitlines()
@@ -71,12 +97,13 @@ def main():
                            diagnostics=diag, wall_s=round(time.time() - t0, 1))
         with ThreadPoolExecutor(int(os.environ.get('JOBS', '8'))) as ex:
             meta['checks'] = dict(ex.map(one, pids))
+        shutil.rmtree(snap, ignore_errors=True)
     finally:
         sh(f'git -C /repo worktree remove --force {wt}')
         shutil.rmtree(wt, ignore_errors=True)
     dst = os.path.join(VERIF, 'benign', name)
     os.makedirs(dst, exist_ok=True)
-    for f in ('patch.diff', 'demo.py', 'notes.md'):
+    for f in ('patch.diff', 'demo.py', 'notes.md', 'base.txt'):
         if os.path.exists(os.path.join(src, f)) and os.path.abspath(src) != os.path.abspath(dst):
             shutil.copy(os.path.join(src, f), os.path.join(dst, f))
     mp = os.path.join(dst, 'meta.json')
